@@ -57,6 +57,9 @@ Proof.
   destruct k; try reflexivity. simpl in H; congruence.
 Qed.
 
+Lemma bindr_ok : forall A B (a : A) r (k : A -> toks -> pres B), bindr (POk a r) k = k a r.
+Proof. reflexivity. Qed.
+
 (* one level down: the result of level [S lv] is the result of level [lv]
    when the loop of [lv] stops (and, at the prefix level, no prefix operator
    is in front) *)
@@ -67,14 +70,15 @@ Lemma descend1 : forall f tb lv ts e rest,
   parse_at (S (S f)) tb lv ts = POk e rest.
 Proof.
   intros f tb lv ts e rest Hle H Hs Hu.
-  do 12 (destruct lv as [|lv]; [
-    try (change (parse_at (S (S f)) tb ?l ts) with
-           (bindr (parse_at (S f) tb (S l) ts) (bin_loop (parse_at (S f)) tb (S f) l));
-         rewrite H; simpl bindr; apply bin_loop_stop; exact Hs) |]); try lia.
+  destruct lv as [|[|[|[|[|[|[|[|[|[|[|[|lv]]]]]]]]]]]]; try lia;
+    try (match goal with |- parse_at _ _ ?l _ = _ =>
+           change (parse_at (S (S f)) tb l ts) with
+             (bindr (parse_at (S f) tb (S l) ts) (bin_loop (parse_at (S f)) tb (S f) l)) end;
+         rewrite H, bindr_ok; apply bin_loop_stop; exact Hs).
   - (* 1 *)
     change (parse_at (S (S f)) tb 1 ts) with
       (bindr (parse_at (S f) tb 2 ts) (tern_loop (parse_at (S f)) tb (S f))).
-    rewrite H; simpl bindr. apply tern_loop_stop; exact Hs.
+    rewrite H, bindr_ok. apply tern_loop_stop; exact Hs.
   - (* 4 *)
     specialize (Hu eq_refl). destruct ts as [|[k t] r]; [destruct Hu|].
     simpl in Hu.
@@ -84,4 +88,46 @@ Proof.
        | None => parse_at (S f) tb 5 ((k, t) :: r)
        end).
     rewrite Hu. exact H.
+Qed.
+
+(* several levels down *)
+Lemma descend : forall k f tb lv ts e rest,
+  lv + k <= 12 ->
+  parse_at (S f) tb (lv + k) ts = POk e rest ->
+  (forall l, lv <= l < lv + k -> stops l rest) ->
+  (lv <= 4 < lv + k -> not_unop ts) ->
+  parse_at (S f + k) tb lv ts = POk e rest.
+Proof.
+  induction k as [|k IH]; intros f tb lv ts e rest Hle H Hs Hu.
+  - rewrite Nat.add_0_r in *. exact H.
+  - replace (S f + S k) with (S (S f) + k) by lia.
+    apply IH; try lia.
+    + replace (lv + S k) with (S (lv + k)) in H by lia.
+      apply descend1; try lia; try exact H.
+      * apply Hs; lia.
+      * intros E. apply Hu; lia.
+    + intros l Hl. apply Hs; lia.
+    + intros Hl. apply Hu; lia.
+Qed.
+
+(* from the primary level to level [lv] *)
+Lemma from_primary : forall f tb lv ts e rest,
+  lv <= 12 ->
+  primary (parse_at f) tb f ts = POk e rest ->
+  (forall l, lv <= l < 12 -> stops l rest) ->
+  (lv <= 4 -> not_unop ts) ->
+  parse_at (S f + (12 - lv)) tb lv ts = POk e rest.
+Proof.
+  intros f tb lv ts e rest Hle H Hs Hu.
+  apply descend; try lia.
+  - replace (lv + (12 - lv)) with 12 by lia. exact H.
+  - intros l Hl. apply Hs; lia.
+  - intros Hl. apply Hu; lia.
+Qed.
+
+(* a closing parenthesis starts no expression *)
+Lemma rparen_fail : forall f tb lv t r, parse_at (13 + f) tb lv ((KRParen, t) :: r) = PFail.
+Proof.
+  intros f tb lv t r.
+  destruct lv as [|[|[|[|[|[|[|[|[|[|[|[|[|lv]]]]]]]]]]]]]; reflexivity.
 Qed.
